@@ -1,0 +1,19 @@
+//go:build verif
+
+package sstables
+
+import (
+	"github.com/thomasjungblut/go-sstables/recordio"
+	rProto "github.com/thomasjungblut/go-sstables/recordio/proto"
+)
+
+// VerifWrapWriters lets a verification harness wrap the data and index writers of an opened stream writer
+// (the same field swap sstable_writer_test.go does from inside the package), e.g. with writers that fail on demand.
+func VerifWrapWriters(w *SSTableStreamWriter, data func(recordio.WriterI) recordio.WriterI, index func(rProto.WriterI) rProto.WriterI) {
+	if data != nil {
+		w.dataWriter = data(w.dataWriter)
+	}
+	if index != nil {
+		w.indexWriter = index(w.indexWriter)
+	}
+}
